@@ -96,6 +96,7 @@ type vfResult struct {
 	Skipped    string // precondition false etc.
 	Tape       []int
 	Trace      []string
+	Extra      any // property-specific data handed back to generators (golden runs)
 }
 
 // vfRun is handed to a property's exec function.
